@@ -50,13 +50,33 @@ def producer(ctx):
         _rep(ctx, P, 'RF1-hb-frame', f, 'heartbeat frame in %s' % mode, bad)
     # (b) write / init: delete first if running, cyclic action with start = cycle = ticks(value, 1 ms), zero stops
     for f, via in (('COTNmtHbProdWrite', 'write'), ('COTNmtHbProdInit', 'init')):
-        for cyc in (0, 100):
+        for cyc in (0, 100, 1, 0xFFFF, None):
             for running in (0, 1):
-                inputs = {'obj->Key': 0x10170000, 'size': 2, '*buffer': cyc, 'node->Nmt.Tmr': (3 if running else -1),
+                inputs = {'obj->Key': 0x10170000, 'size': 2, 'node->Nmt.Tmr': (3 if running else -1),
                           'call:COTmrDelete': 0, 'call:COTmrGetTicks': 100, 'call:COTmrCreate': 5,
-                          'out:COTInt16Read:2': cyc, 'call:COTInt16Read': NONE, 'call:COTInt16Write': NONE}
+                          'call:COTInt16Read': NONE, 'call:COTInt16Write': NONE}
+                if cyc is not None:
+                    inputs['*buffer'] = cyc
+                    inputs['out:COTInt16Read:2'] = cyc
                 trs = _run(m, f, inputs, filt=lambda k, fld: fld == ('CO_NMT', 'Tmr'))
-                site = '%s value=%d running=%d' % (f, cyc, running)
+                site = '%s value=%s running=%d' % (f, 'any' if cyc is None else cyc, running)
+                if cyc is None:
+                    # value left unbound: every path either arms the producer or stops it - no third outcome
+                    bad = None
+                    for t in trs:
+                        cr = [c for c in t.calls() if c[1] == 'COTmrCreate']
+                        dl = [c for c in t.calls() if c[1] == 'COTmrDelete']
+                        last = [e[2] for e in t.stores()][-1:]
+                        if len(dl) != running:
+                            bad = 'running action deleted %d times on a path' % len(dl)
+                        elif cr and (len(cr) != 1 or cr[0][2][1:3] != [100, 100] or last != [5]):
+                            bad = 'a path arms the producer with %s (handle %s)' % ([c[2][1:3] for c in cr], last)
+                        elif not cr and last != [-1] and t.ret in (NONE, None):
+                            bad = 'a path accepts the value but neither arms nor stops the producer (handle %s)' % last
+                    if not trs:
+                        bad = 'no path'
+                    _rep(ctx, P, 'RF2-hb-prod', f, site, bad)
+                    continue
                 bad = None
                 for t in trs:
                     names = [n for n in t.call_names() if n in ('COTmrDelete', 'COTmrCreate', 'COTmrGetTicks')]
@@ -106,6 +126,24 @@ def consumer(ctx):
     pe = PEval(m, f)
     pe.record_sets = False
     pe.store_filter = lambda k, fld: fld is not None and fld[0] in ('CO_HBCONS', 'CO_NMT')
+    # duplicate refusal for every node id class (0 and 127 are ordinary ids for this stack): another chain member
+    # monitors the same node and the time is non-zero => refused; otherwise accepted
+    for nid_ in (0, 1, 5, 127):
+        for time in (0, 100):
+            for dup in (0, 1):
+                trs = pe.run({'hbc': 1, 'time': time, 'nodeid': nid_, 'hbc->Node->Nmt.HbCons': 1, 'act->NodeId': nid_ if dup else (nid_ ^ 1),
+                              'act->Next': 0, 'hbc->Tmr': -1, 'call:COTmrDelete': 0})
+                site = 'activate node=%d time=%d while another entry monitors %s' % (nid_, time, 'the same node' if dup else 'another node')
+                bad = None
+                for t in trs:
+                    refused = (t.ret == INCOMP)
+                    if dup and time and not refused:
+                        bad = 'accepted although another entry already monitors node %d' % nid_
+                    if (not dup or not time) and refused:
+                        bad = 'refused although no other entry monitors node %d with a running time' % nid_
+                if not trs:
+                    bad = 'no path'
+                _rep(ctx, P, 'RF2-hbc-activate', f, site, bad)
     for time in (0, 100):
         trs = pe.run({'hbc': 1, 'time': time, 'nodeid': 5})
         for t in trs:
@@ -185,13 +223,28 @@ def consumer(ctx):
             elif t.ret != 5:
                 bad = 'returns %s, required the node id (frame claimed)' % t.ret
         _rep(ctx, P, 'RF2-hbc-check', f, 'heartbeat state %d after %d' % (new, old), bad)
-    for ident in (0x6FF, 0x780, 0x706):
-        trs = _run(m, f, {'frm->Identifier': ident, 'nmt->HbCons': 1, 'hbc->NodeId': 5, 'hbc->Next': 0})
+    # identifier filter, exhaustive over the 11-bit range plus extended identifiers whose low bits look like a
+    # heartbeat: the frame belongs to the monitored node iff identifier == 700h + node id
+    for node_ in (5, 0, 127):
+        wrong = []
+        idents = list(range(0x800)) + [0x10000700 + node_, 0x1ABC0700 + node_, 0x00000F00 + node_, 0x20000700 + node_, 0x00010700 + node_]
+        for ident in idents:
+            trs = _run(m, f, {'frm->Identifier': ident, 'frm->Data[0]': 5, 'nmt->HbCons': 1, 'hbc->NodeId': node_, 'hbc->Next': 0,
+                              'hbc->Tmr': -1, 'hbc->Time': 100, 'call:CONmtModeDecode': m.enum('CO_OPERATIONAL'),
+                              'call:COTmrGetTicks': 100, 'call:COTmrCreate': 6})
+            exp = (ident == 0x700 + node_)
+            for t in trs:
+                hit = (t.ret is not None and t.ret >= 0) or 'COTmrCreate' in t.call_names()
+                if hit != exp or t.ret is None:
+                    wrong.append(ident)
+                    break
+        site = 'identifier filter, monitored node %d (%d identifiers)' % (node_, len(idents))
         bad = None
-        for t in trs:
-            if t.ret is None or t.ret >= 0 or 'COTmrCreate' in t.call_names():
-                bad = 'identifier %Xh: returns %s, re-arms %s' % (ident, t.ret, 'COTmrCreate' in t.call_names())
-        _rep(ctx, P, 'RF2-hbc-check', f, 'frame %Xh is not a heartbeat of a monitored node' % ident, bad)
+        if wrong:
+            bad = 'identifiers %s are %s as heartbeat of node %d' % (
+                ', '.join('%Xh' % i for i in wrong[:6]), 'not accepted' if wrong[0] == 0x700 + node_ else 'accepted', node_)
+        # a frame the consumer claims wrongly never reaches the RPDO decoder / the application: C09 (claim discipline), C13
+        _rep(ctx, P + ['C09', 'C13'], 'RF2-hbc-check', f, site, bad)
     # last-state ownership: CO_HBCONS.State is written only from a received frame or reset together with the configuration
     for fname, fn in sorted(m.funcs.items()):
         for n in walk(fn.body):
